@@ -288,8 +288,10 @@ func processPoints(points []Point, closed bool) (
 		a = points[i]
 		b = points[(i+1)%n]
 
-		// process the clockwise detection
-		cwc += (b.X - a.X) * (b.Y + a.Y)
+		// process the clockwise detection. The heights are taken relative to
+		// the first point, otherwise the ordinates of a ring that is far from
+		// the origin swamp its (much smaller) signed area.
+		cwc += (b.X - a.X) * ((b.Y - points[0].Y) + (a.Y - points[0].Y))
 
 		// process the convex calculation
 		if concave {
